@@ -67,7 +67,13 @@ NameOf(s) == SubSeq(s, LastSlash(s) + 1, Len(s))
 
 \* ---- the tree --------------------------------------------------------------------
 Doc(v, len, stale) == [k |-> "doc", v |-> v, len |-> len, stale |-> stale, recs |-> <<>>]
-Lines(recs, bad) == [k |-> "lines", v |-> 0, len |-> 0, stale |-> bad, recs |-> recs]
+\* a record file remembers the API it was written with: "jsonl" (pg.open_jsonl: records are PyGlove values, one JSON text
+\* per line) or "text" (pg.io.open_sequence without serializer: records are raw strings - the empty string and
+\* whitespace-only strings included - one per line)
+ApiCode(api) == IF api = "text" THEN 1 ELSE 0
+LinesA(recs, bad, api) == [k |-> "lines", v |-> api, len |-> 0, stale |-> bad, recs |-> recs]
+Lines(recs, bad) == LinesA(recs, bad, 0)
+Apis == {"jsonl", "text"}
 Dir == [k |-> "dir", v |-> 0, len |-> 0, stale |-> FALSE, recs |-> <<>>]
 Has(t, loc) == loc \in DOMAIN t
 IsDir(t, loc) == loc = <<>> \/ (Has(t, loc) /\ t[loc].k = "dir")
@@ -137,15 +143,18 @@ Rm(fs, p) ==
      ELSE IF IsDir(t, loc) THEN /\ out' = Fail("is_a_directory") /\ UNCHANGED <<tree, ghost>>
      ELSE /\ tree' = [tree EXCEPT ![fs] = Del(t, loc)] /\ out' = OK(0) /\ GRm(fs, p)
 
-\* pg.open_jsonl(path, mode) ... add(rec) ... close()
-OpenSeq(fs, p, mode) ==
+\* pg.open_jsonl(path, mode) / pg.io.open_sequence(path, mode) ... add(rec) ... close()
+OpenSeq(fs, p, mode, api) ==
   LET s == Full(p)  t == tree[fs]  dloc == Loc(fs, DirStr(s))  loc == Loc(fs, s) IN
   /\ writer = NoWriter /\ mode \in {"w", "a"} /\ (fs = "mem" => p \in MemPaths)
   /\ ~("mem_reopen" \in Avoid /\ fs = "mem" /\ (gdoc[fs][p] # 0 \/ grecs[fs][p] # <<>> \/ mode = "a"))
-  /\ act' = <<"OpenSeq", fs, p, mode>>
+  /\ act' = <<"OpenSeq", fs, p, mode, api>>
+  \* appending with the other record format to an existing record file: not generated
+  /\ LET l == IF fs = "rec" THEN <<Rel(p)>> ELSE loc IN
+     ~(mode = "a" /\ Has(t, l) /\ t[l].k = "lines" /\ t[l].recs # <<>> /\ t[l].v # ApiCode(api))
   /\ IF fs = "rec" THEN
        \* MemorySequenceIO: records keyed by the path string; 'w' resets, 'a' keeps
-       /\ tree' = [tree EXCEPT ![fs] = Put(t, <<Rel(p)>>, IF mode = "w" \/ ~Has(t, <<Rel(p)>>) THEN Lines(<<>>, FALSE) ELSE t[<<Rel(p)>>])]
+       /\ tree' = [tree EXCEPT ![fs] = Put(t, <<Rel(p)>>, IF mode = "w" \/ ~Has(t, <<Rel(p)>>) \/ t[<<Rel(p)>>].recs = <<>> THEN LinesA(<<>>, FALSE, ApiCode(api)) ELSE t[<<Rel(p)>>])]
        /\ writer' = [fs |-> fs, p |-> p, mode |-> mode, clobber |-> FALSE] /\ out' = OK(0)
        /\ IF mode = "w" THEN GReset(fs, p) ELSE UNCHANGED ghost
      ELSE IF ~MkdirsOK(t, dloc) THEN /\ out' = Fail("not_a_directory") /\ UNCHANGED <<tree, writer, ghost>>
@@ -158,7 +167,7 @@ OpenSeq(fs, p, mode) ==
                 \* as written: 'w' on an existing buffer keeps the old bytes (stale at once); 'a' starts writing at
                 \* position 0, so the first record added clobbers what was there
                 coded == fs = "mem" /\ Mirror /\ old.recs # <<>>
-                start == IF mode = "w" THEN Lines(<<>>, coded) ELSE Lines(old.recs, old.stale)
+                start == IF mode = "w" THEN LinesA(<<>>, coded, ApiCode(api)) ELSE LinesA(old.recs, old.stale, ApiCode(api))
                 at == IF IsFile(t1, loc) THEN loc ELSE CreateLoc(fs, s)
             IN /\ tree' = [tree EXCEPT ![fs] = Put(t1, at, start)]
                /\ writer' = [fs |-> fs, p |-> p, mode |-> mode, clobber |-> coded /\ mode = "a"] /\ out' = OK(0)
@@ -171,17 +180,18 @@ Add(rec) ==
   /\ writer # NoWriter /\ Len(grecs[writer.fs][writer.p]) < MaxRecs
   /\ act' = <<"Add", rec>> /\ out' = OK(0) /\ UNCHANGED writer
   /\ LET l == WriterLoc  n == tree[writer.fs][l] IN
-     tree' = [tree EXCEPT ![writer.fs] = Put(@, l, Lines(Append(n.recs, rec), n.stale \/ writer.clobber))]
+     tree' = [tree EXCEPT ![writer.fs] = Put(@, l, LinesA(Append(n.recs, rec), n.stale \/ writer.clobber, n.v))]
   /\ GAdd(writer.fs, writer.p, rec)
 CloseSeq ==
   /\ writer # NoWriter
   /\ act' = <<"CloseSeq">> /\ out' = OK(0) /\ writer' = NoWriter /\ UNCHANGED <<tree, ghost>>
 
-ReadSeq(fs, p) ==
+ReadSeq(fs, p, api) ==
   LET t == tree[fs]  loc == IF fs = "rec" THEN <<Rel(p)>> ELSE Loc(fs, Full(p)) IN
   /\ NoWriterOn(fs, p) /\ (fs = "mem" => p \in MemPaths)
+  /\ (Has(t, loc) /\ t[loc].k = "lines" /\ t[loc].recs # <<>>) => t[loc].v = ApiCode(api)      \* read with the API it was written with
   /\ ~(Has(t, loc) /\ t[loc].k = "doc")
-  /\ act' = <<"ReadSeq", fs, p>> /\ UNCHANGED <<tree, writer, ghost>>
+  /\ act' = <<"ReadSeq", fs, p, api>> /\ UNCHANGED <<tree, writer, ghost>>
   /\ out' = IF fs = "rec" THEN OKRecs(IF Has(t, loc) THEN t[loc].recs ELSE <<>>)
             ELSE IF IsDir(t, loc) THEN Fail("is_a_directory")
             ELSE IF ~IsFile(t, loc) THEN Fail("not_found")
@@ -193,7 +203,7 @@ Init == /\ tree = [fs \in FSKinds |-> <<>> :> Dir] /\ writer = NoWriter
 Next ==
   \/ \E fs \in FSKinds \ {"rec"} : \E p \in Pick(PathIds) :
         (\E v \in Pick(Vals) : Save(fs, p, v)) \/ Load(fs, p) \/ Exists(fs, p) \/ Rm(fs, p)
-  \/ \E fs \in FSKinds : \E p \in Pick(PathIds) : (\E m \in {"w", "a"} : OpenSeq(fs, p, m)) \/ ReadSeq(fs, p)
+  \/ \E fs \in FSKinds : \E p \in Pick(PathIds) : \E api \in Apis : (\E m \in {"w", "a"} : OpenSeq(fs, p, m, api)) \/ ReadSeq(fs, p, api)
   \/ \E r \in Pick(Vals) : Add(r)
   \/ CloseSeq
 Spec == Init /\ [][Next]_vars
